@@ -580,9 +580,17 @@ where
     B: IntoRequestBytes,
     S: SignedHeaderRequirements,
 {
-    let opts = SignatureOptions {
+    // Half of the validations (a deterministic function of the case) name the option set the way a caller
+    // would — through the public constructors — so that those are monitored too.
+    let literal = SignatureOptions {
         s3: cfg.s3,
         url_encode_form: cfg.fold,
+    };
+    let opts = match (cfg.now.s & 1 == 0, cfg.s3, cfg.fold) {
+        (true, false, false) => SignatureOptions::default(),
+        (true, true, false) => SignatureOptions::S3,
+        (true, false, true) => SignatureOptions::url_encode_form(),
+        _ => literal,
     };
     let now = to_datetime(cfg.now);
     let fut = sigv4_validate_request(req, &cfg.region, &cfg.service, prov, now, reqs, opts);
